@@ -326,22 +326,35 @@ func runPeekRune(r *core.Run) {
 					switch x := in.(type) {
 					case *ssa.Call:
 						f := x.Call.StaticCallee()
-						if f == nil || f.Name() != "Peek" || recvName(f) != ct.typ {
+						if f == nil || recvName(f) != ct.typ {
 							continue
 						}
-						a := cr.normLin(linOf(x.Call.Args[1]), z)
-						d := a.add(argPos, -1)
-						if !d.isConst() || d.C < 0 {
-							r.Unknown(fmt.Sprintf("%s.%s Peek(%s)", name, m, a), x.Pos(), "look-ahead offset is not position+constant")
-							continue
+						var offs []Lin
+						if f.Name() == "Peek" {
+							offs = append(offs, cr.normLin(linOf(x.Call.Args[1]), z))
+						} else if f.Object() != nil && !f.Object().Exported() && len(f.Blocks) > 0 {
+							// an unexported helper of the cursor that peeks at an offset computed from its parameters (cont(i))
+							for _, hb := range f.Blocks {
+								for _, hin := range hb.Instrs {
+									hc, isC := hin.(*ssa.Call)
+									if !isC {
+										continue
+									}
+									if hf := hc.Call.StaticCallee(); hf == nil || hf.Name() != "Peek" || recvName(hf) != ct.typ {
+										continue
+									}
+									if l, okS := substParams(linOf(hc.Call.Args[1]), f, x.Call.Args); okS {
+										offs = append(offs, cr.normLin(l, z))
+									} else {
+										r.Unknown(fmt.Sprintf("%s.%s look-ahead in helper %s", name, m, f.Name()), hc.Pos(), "look-ahead offset inside the helper is not expressible at the call site")
+									}
+								}
+							}
 						}
-						if d.C == 0 {
-							continue // the byte at the position itself: caller's contract
+						for _, a := range offs {
+							peekObligation(r, name, m, x.Pos(), fs, a, argPos, base, last, &obs)
 						}
-						obs++
-						goal := last.add(base, -1).add(a, -1) // len-1 - pos - a >= 0
-						r.Check(entails(fs, goal), fmt.Sprintf("%s.%s read Peek(position+%d)", name, m, d.C), x.Pos(), "",
-							fmt.Sprintf("Peek(%s) is read under guards %v, which do not imply z.pos+%s <= len(buf)-1: for some position argument the read indexes past the terminator", a, factStrings(fs), a))
+						continue
 					case *ssa.Return:
 						if m != "PeekRune" || len(x.Results) != 2 {
 							continue
@@ -364,40 +377,36 @@ func runPeekRune(r *core.Run) {
 							continue
 						}
 						d := cr.normLin(linOf(x.Val), z).add(base, -1)
-						if d.isConst() {
-							if d.C <= 1 {
-								continue
-							}
-							obs++
-							goal := last.add(base, -1).add(linConst(d.C), -1)
-							r.Check(entails(fs, goal), fmt.Sprintf("%s.MoveRune step %d", name, d.C), x.Pos(), "",
-								fmt.Sprintf("pos advances by %d under guards %v, which do not imply pos+%d <= len(buf)-1", d.C, factStrings(fs), d.C))
-							continue
-						}
-						// pos += helper(...): a helper that returns only constants; each value k > 1 must imply k bytes remain
-						var call *ssa.Call
+						var amount ssa.Value
 						if bo, ok := x.Val.(*ssa.BinOp); ok && bo.Op == token.ADD {
 							for _, o := range []ssa.Value{bo.X, bo.Y} {
-								if c, isC := stripIntConv(o).(*ssa.Call); isC {
-									call = c
+								if _, _, isC := callOfValue(o); isC {
+									amount = o
 								}
 							}
 						}
-						ks, okK := constResults(call)
-						if call == nil || !okK {
-							r.Unknown(name+".MoveRune step", x.Pos(), "the step is neither a constant nor the result of a helper that returns constants")
+						moveRuneStep(r, cr, name, z, x.Pos(), fs, d, amount, base, last, &obs)
+					}
+					// MoveRune written as z.Move(n): a call of a method that adds its argument to the position
+					if c, ok := in.(*ssa.Call); ok && m == "MoveRune" {
+						g := c.Call.StaticCallee()
+						if g == nil || g.Signature.Recv() == nil || recvName(g) != ct.typ || g.Name() == "Peek" || len(c.Call.Args) != 2 || len(g.Params) != 2 {
 							continue
 						}
-						for _, k := range ks {
-							if k <= 1 {
-								continue
-							}
-							obs++
-							fk := append(append([]Fact{}, fs...), cr.normFacts(callResultFacts(call, k), z)...)
-							goal := last.add(base, -1).add(linConst(k), -1)
-							r.Check(entails(fk, goal), fmt.Sprintf("%s.MoveRune step %d", name, k), x.Pos(), "",
-								fmt.Sprintf("pos advances by %d (result of %s) under guards %v, which do not imply pos+%d <= len(buf)-1", k, fnLabel(call.Call.StaticCallee()), factStrings(fk), k))
+						sm := cr.summarise(r, g, 0)
+						if sm == nil || !sm.ok {
+							continue
 						}
+						pl, has := sm.fields["pos"]
+						if !has {
+							continue
+						}
+						dd := pl.add(linAtom("z.pos"), -1)
+						if len(dd.T) != 1 || dd.T[g.Params[1].Name()] != 1 || dd.C != 0 {
+							continue
+						}
+						d := cr.normLin(linOf(c.Call.Args[1]), z)
+						moveRuneStep(r, cr, name, z, c.Pos(), fs, d, c.Call.Args[1], base, last, &obs)
 					}
 				}
 			}
@@ -406,8 +415,63 @@ func runPeekRune(r *core.Run) {
 	r.Floor("rune look-ahead obligations", obs, 12)
 }
 
+// peekObligation: a look-ahead read at offset a (relative to the position) inside PeekRune/MoveRune.
+func peekObligation(r *core.Run, name, m string, pos token.Pos, fs []Fact, a, argPos, base, last Lin, obs *int) {
+	d := a.add(argPos, -1)
+	if !d.isConst() || d.C < 0 {
+		r.Unknown(fmt.Sprintf("%s.%s Peek(%s)", name, m, a), pos, "look-ahead offset is not position+constant")
+		return
+	}
+	if d.C == 0 {
+		return // the byte at the position itself: caller's contract
+	}
+	*obs++
+	goal := last.add(base, -1).add(a, -1) // len-1 - pos - a >= 0
+	r.Check(entails(fs, goal), fmt.Sprintf("%s.%s read Peek(position+%d)", name, m, d.C), pos, "",
+		fmt.Sprintf("Peek(%s) is read under guards %v, which do not imply z.pos+%s <= len(buf)-1: for some position argument the read indexes past the terminator", a, factStrings(fs), a))
+}
+
+// moveRuneStep: the position advances by d (a constant, or the result `amount` of a helper that returns only
+// constants); every step k > 1 must be covered by guards implying that k bytes remain.
+func moveRuneStep(r *core.Run, cr *cursorRoles, name, z string, pos token.Pos, fs []Fact, d Lin, amount ssa.Value, base, last Lin, obs *int) {
+	if d.isConst() {
+		if d.C <= 1 {
+			return
+		}
+		*obs++
+		goal := last.add(base, -1).add(linConst(d.C), -1)
+		r.Check(entails(fs, goal), fmt.Sprintf("%s.MoveRune step %d", name, d.C), pos, "",
+			fmt.Sprintf("pos advances by %d under guards %v, which do not imply pos+%d <= len(buf)-1", d.C, factStrings(fs), d.C))
+		return
+	}
+	var call *ssa.Call
+	ri := 0
+	if amount != nil {
+		if c, i, isC := callOfValue(amount); isC {
+			call, ri = c, i
+		}
+	}
+	ks, okK := constResultsAt(call, ri)
+	if call == nil || !okK {
+		r.Unknown(name+".MoveRune step", pos, "the step is neither a constant nor the result of a helper that returns constants")
+		return
+	}
+	for _, k := range ks {
+		if k <= 1 {
+			continue
+		}
+		*obs++
+		fk := append(append([]Fact{}, fs...), cr.normFacts(callResultFactsAt(call, ri, k), z)...)
+		goal := last.add(base, -1).add(linConst(k), -1)
+		r.Check(entails(fk, goal), fmt.Sprintf("%s.MoveRune step %d", name, k), pos, "",
+			fmt.Sprintf("pos advances by %d (result of %s) under guards %v, which do not imply pos+%d <= len(buf)-1", k, fnLabel(call.Call.StaticCallee()), factStrings(fk), k))
+	}
+}
+
 // constResults: the distinct constants a module function can return (single integer result), if it returns only constants.
-func constResults(c *ssa.Call) ([]int64, bool) {
+func constResults(c *ssa.Call) ([]int64, bool) { return constResultsAt(c, 0) }
+
+func constResultsAt(c *ssa.Call, ri int) ([]int64, bool) {
 	if c == nil {
 		return nil, false
 	}
@@ -422,10 +486,10 @@ func constResults(c *ssa.Call) ([]int64, bool) {
 		if !ok {
 			continue
 		}
-		if len(ret.Results) != 1 {
+		if ri >= len(ret.Results) {
 			return nil, false
 		}
-		k, isK := ret.Results[0].(*ssa.Const)
+		k, isK := ret.Results[ri].(*ssa.Const)
 		if !isK || !ssaIntConst(k) {
 			return nil, false
 		}
@@ -519,7 +583,7 @@ func (c *borrowCtx) isOriginal(v ssa.Value) bool {
 		if len(sts) == 0 {
 			return false
 		}
-		if _, isParam := sts[0].Val.(*ssa.Parameter); !isParam || !c.alias[sts[0].Val] {
+		if prm, isParam := sts[0].Val.(*ssa.Parameter); !isParam || !c.isOriginal(prm) {
 			return false
 		}
 		for _, st := range sts[1:] {
